@@ -57,22 +57,36 @@ theorem parseInt_showInt (i : Int) : parseInt? (showInt i) = some i := by
 
 /-! ### tokens and whitespace -/
 
-/-- A numeric token: accepted by `float()`, non-empty, free of whitespace and brackets. -/
+/-- a character `escape_text` leaves alone in both modes (not one of the escaped images) -/
+def plainC (c : Char) : Bool :=
+  !(c == '"' || c == '\\' || c == '\n' || c == '\t' || c == '\x0b' || c == '\x08' || c == '\r' ||
+    c == '\x0c' || c == '\x07' || c == '\'')
+
+def plainStr (s : Str) : Bool := s.all plainC
+
+/-- A numeric token: accepted by `float()`, non-empty, free of whitespace, brackets and of the
+characters `escape_text` would rewrite (numbers are written without escaping). -/
 def TokOK (t : Str) : Bool :=
-  isNum t && !t.isEmpty && t.all (fun c => !isWs c && !isOpenBr c && !isCloseBr c)
+  isNum t && !t.isEmpty && t.all (fun c => !isWs c && !isOpenBr c && !isCloseBr c && plainC c)
 
 def NoWs (t : Str) : Prop := ∀ c ∈ t, isWs c = false
 
 theorem tok_isNum {t} (h : TokOK t = true) : C06.isNum t = true := by
-  simp [TokOK] at h; exact h.1.1
+  simp only [TokOK, Bool.and_eq_true] at h; exact h.1.1
 theorem tok_ne_nil {t} (h : TokOK t = true) : t ≠ [] := by
-  simp [TokOK] at h; intro e; simp [e] at h
-theorem tok_noWs {t} (h : TokOK t = true) : NoWs t := by
-  simp [TokOK] at h; intro c hc; exact (h.2 c hc).1.1
-theorem tok_noOpen {t} (h : TokOK t = true) : ∀ c ∈ t, isOpenBr c = false := by
-  simp [TokOK] at h; intro c hc; exact (h.2 c hc).1.2
-theorem tok_noClose {t} (h : TokOK t = true) : ∀ c ∈ t, isCloseBr c = false := by
-  simp [TokOK] at h; intro c hc; exact (h.2 c hc).2
+  simp only [TokOK, Bool.and_eq_true] at h; intro e; simp [e] at h
+theorem tok_chars {t} (h : TokOK t = true) :
+    ∀ c ∈ t, isWs c = false ∧ isOpenBr c = false ∧ isCloseBr c = false ∧ plainC c = true := by
+  simp only [TokOK, Bool.and_eq_true, List.all_eq_true, Bool.not_eq_true'] at h
+  intro c hc
+  have := h.2 c hc
+  exact ⟨this.1.1.1, this.1.1.2, this.1.2, this.2⟩
+theorem tok_noWs {t} (h : TokOK t = true) : NoWs t := fun c hc => (tok_chars h c hc).1
+theorem tok_noOpen {t} (h : TokOK t = true) : ∀ c ∈ t, isOpenBr c = false := fun c hc => (tok_chars h c hc).2.1
+theorem tok_noClose {t} (h : TokOK t = true) : ∀ c ∈ t, isCloseBr c = false := fun c hc => (tok_chars h c hc).2.2.1
+theorem tok_plain {t} (h : TokOK t = true) : plainStr t = true := by
+  simp only [plainStr, List.all_eq_true]
+  exact fun c hc => (tok_chars h c hc).2.2.2
 
 theorem splitWsAux_tok (t : Str) (ht : NoWs t) (rest cur : Str) :
     splitWsAux (t ++ rest) cur = splitWsAux rest (t.reverse ++ cur) := by
@@ -552,7 +566,7 @@ theorem join_split (sep : Char) (s : Str) : joinWith [sep] (splitOn sep s) = s :
 with the comma separator no comma in target / input / delay (commas in the *parameter* are
 re-joined by the reader). -/
 def OutOK (o : Out) : Bool :=
-  nameOK o.instOut o.output && nameOK o.instIn o.input && isNum o.delay &&
+  nameOK o.instOut o.output && nameOK o.instIn o.input && TokOK o.delay &&
   [o.target, expIn o, o.params, o.delay].all (fun f => !f.contains '\x1b') &&
   (!o.comma || [o.target, expIn o, o.delay].all (fun f => !f.contains ','))
 
@@ -589,7 +603,7 @@ theorem parseOut_export (o : Out) (h : OutOK o = true) : parseOut (exportOut o) 
     rw [parseName_expName _ _ hn1]
     simp only []
     rw [parseName_expName _ _ hn2]
-    simp [hd, parseInt_showInt]
+    simp [tok_isNum hd, parseInt_showInt]
   | true =>
     have hsep : outSep true = ',' := rfl
     have hcm : ',' ∉ o.target ∧ ',' ∉ expName o.instIn o.input ∧ ',' ∉ o.delay := by
@@ -639,7 +653,7 @@ theorem parseOut_export (o : Out) (h : OutOK o = true) : parseOut (exportOut o) 
     rw [parseName_expName _ _ hn1]
     simp only []
     rw [parseName_expName _ _ hn2]
-    simp [hd, parseInt_showInt]
+    simp [tok_isNum hd, parseInt_showInt]
 
 theorem splitSubAux_pre (p : Char) (ps : Str) (s rest cur : Str) (n : Nat) (h : p ∉ s) :
     splitSubAux (p :: ps) (n + s.length) (s ++ rest) cur = splitSubAux (p :: ps) n rest (s.reverse ++ cur) := by
@@ -1377,7 +1391,7 @@ def DVertOK (v : DVert) : Bool :=
    | none => true)
 
 def DispOK (d : Disp) : Bool :=
-  decide (1 ≤ d.power) && decide (d.power ≤ 4) && V3OK d.pos && isNum d.elev && decide (d.coll < 8) &&
+  decide (1 ≤ d.power) && decide (d.power ≤ 4) && V3OK d.pos && TokOK d.elev && decide (d.coll < 8) &&
   decide (d.allowed.length = 10) && decide (d.verts.length = dispSize d.power * dispSize d.power) &&
   d.verts.all DVertOK
 
@@ -1841,7 +1855,7 @@ theorem parseDisp_export (mb : Bool) (d : Disp) (h : DispOK d = true) :
     unfold getV3; rw [gl]; unfold dispHead; kv_simp
     exact parseV3_wrap _ _ _ _ hpos (by decide) (by decide) (by decide) (by decide)
   have hel : getFloat "elevation" (lit "0.0") (dispHead d ++ blocks) = d.elev := by
-    unfold getFloat; rw [gl]; unfold dispHead; kv_simp; simp [helev]
+    unfold getFloat; rw [gl]; unfold dispHead; kv_simp; simp [tok_isNum helev]
   have hsub : getBool "subdiv" false (dispHead d ++ blocks) = d.subdiv := by
     unfold getBool; rw [gl]; unfold dispHead; kv_simp; simp [boolLookup_boolStr]
   obtain ⟨hfr, hfb⟩ := flag_roundtrip d.coll hcoll
@@ -1905,7 +1919,7 @@ theorem parseDisp_export (mb : Bool) (d : Disp) (h : DispOK d = true) :
 
 /-- the face fields other than point data and displacement -/
 def SideCoreOK (s : Side) : Bool :=
-  V3OK s.p0 && V3OK s.p1 && V3OK s.p2 && UVOK s.uaxis && UVOK s.vaxis && isNum s.rot
+  V3OK s.p0 && V3OK s.p1 && V3OK s.p2 && UVOK s.uaxis && UVOK s.vaxis && TokOK s.rot
 
 theorem parseSide_core (nm : Str) (s : Side) (extra : List KV) (hb : ∀ k ∈ extra, k.isBlock = true)
     (disp : Option Disp) (points : Option (List V3))
@@ -1936,7 +1950,7 @@ theorem parseSide_core (nm : Str) (s : Side) (extra : List KV) (hb : ∀ k ∈ e
     unfold getInt; rw [gl]; unfold sideLeaves; kv_simp; simp [parseInt_showInt]
   have e2 : getLeaf "material" (sideLeaves s) = some s.mat := by unfold sideLeaves; kv_simp
   have e3 : getFloat "rotation" ['0'] (sideLeaves s ++ extra) = s.rot := by
-    unfold getFloat; rw [gl]; unfold sideLeaves; kv_simp; simp [hr]
+    unfold getFloat; rw [gl]; unfold sideLeaves; kv_simp; simp [tok_isNum hr]
   have e4 : getInt "lightmapscale" 16 (sideLeaves s ++ extra) = s.lightmap := by
     unfold getInt; rw [gl]; unfold sideLeaves; kv_simp; simp [parseInt_showInt]
   have e5 : getInt "smoothing_groups" 0 (sideLeaves s ++ extra) = s.smooth := by
@@ -2348,14 +2362,14 @@ theorem entStep_key (w : Bool) (st : EntSt) (k v : Str) (h : KeyNameOK k = true)
     simpa [KV.fname, KV.name] using h.2
   simp [entStep, h1, h2]
 
-def FixOK (f : Fix) : Bool := !f.var.contains ' ' && f.var.head? != some '$'
+def FixOK (f : Fix) : Bool := !f.var.contains ' ' && f.var.head? != some '$' && plainStr f.var
 
 theorem entStep_fix (w : Bool) (st : EntSt) (f : Fix) (h : FixOK f = true) :
     entStep w st (exportFix f) = .ok { st with fixup := st.fixup ++ [f] } := by
   cases f with
   | mk var value id =>
   simp only [FixOK, Bool.and_eq_true, Bool.not_eq_true', bne_iff_ne, ne_eq] at h
-  obtain ⟨hsp, hd⟩ := h
+  obtain ⟨⟨hsp, hd⟩, _hplain⟩ := h
   have hexp : exportFix ⟨var, value, id⟩
       = KV.leaf (lit "replace" ++ pad2 (showInt id)) ('$' :: (var ++ ' ' :: value)) := rfl
   rw [hexp]
